@@ -104,6 +104,10 @@ func (sc *Scheduler) Schedule(ctx context.Context, g *ExecutionGraph, done chan 
 
 	var wg = sync.WaitGroup{}
 
+	// The lifecycle handlers must still be executed after the DAG's timeout
+	// has expired, so they run under the caller's context.
+	handlerCtx := ctx
+
 	var cancel context.CancelFunc
 	if sc.timeout > 0 {
 		ctx, cancel = context.WithTimeout(ctx, sc.timeout)
@@ -253,7 +257,7 @@ func (sc *Scheduler) Schedule(ctx context.Context, g *ExecutionGraph, done chan 
 			n.data.Step.OutputVariables = g.outputVariables
 			n.mu.Unlock()
 
-			if err := sc.runHandlerNode(ctx, n); err != nil {
+			if err := sc.runHandlerNode(handlerCtx, n); err != nil {
 				sc.setLastError(err)
 			}
 			if done != nil {
